@@ -6,7 +6,10 @@
 (* unsubscribe or publish while handling an event.                         *)
 (* Handlers have a fixed body (constant Body):                             *)
 (*   <<"none","">> | <<"unsubself","">> | <<"unsub", h>> | <<"sub", h>> |  *)
-(*   <<"publish","">>  (pairs, so that all bodies have one shape)          *)
+(*   <<"publish","">> | <<"waitfor", h>>  (pairs: all bodies have one      *)
+(*   shape; waitfor: an application handler that returns only after        *)
+(*   application handler h has been entered for the same event - handlers  *)
+(*   of one event do not depend on each other)                             *)
 (* A body acts only on top-level events (so nesting is bounded).           *)
 (***************************************************************************)
 EXTENDS Naturals, Sequences, FiniteSets, TLC, Json
@@ -27,7 +30,7 @@ Add(s, h) == IF h \in SeqSet(s) THEN s ELSE Append(s, h)
 \* the effect of handler h's body on the handler list, and whether it publishes a nested event
 BodyEffect(s, h) ==
     LET b == Body[h] IN
-    IF b[1] = "none" \/ b[1] = "publish" THEN s
+    IF b[1] = "none" \/ b[1] = "publish" \/ b[1] = "waitfor" THEN s     \* waitfor h: returns only after handler h has been entered for the same event
     ELSE IF b[1] = "unsubself" THEN Remove(s, h)
     ELSE IF b[1] = "unsub" THEN Remove(s, b[2])
     ELSE Add(s, b[2])
